@@ -118,3 +118,5 @@ def run(ctx: Ctx):
                  "the answer for peer B's request is transmitted to peer A",
                  expected="lookup [requester connection][hop-by-hop id, end-to-end id]",
                  observed="for host, ids in table.items(): if id in ids")
+    from .common_node import ready_check_atomic_with_send
+    ready_check_atomic_with_send(ctx, "C09-R5", "send_answer", "route_answer")
